@@ -266,6 +266,37 @@ def Op.circBatch (k n : Nat) (h : V α) : Op α where
 
 end circ
 
+/-! ### Circular convolution as coded (transform domain) -/
+
+section spectral
+variable {α : Type}
+
+/-- `CircularConvolve._eval` / `_adj` AS CODED: `ifftn(h_dft * fftn(x))` and `ifftn(conj(h_dft) * fftn(y))`;
+    `F` = matrix of `fftn` over the convolution axes, `G` = matrix of `ifftn`, `D = h_dft` (whatever it is: the
+    transform of `h`, multiplied by the `h_center` phases, or given directly with `h_is_dft=True`) -/
+def Op.spectral [Add α] [Mul α] [Zero α] [HasConj α] (n : Nat) (F G : Nat → Nat → α) (D : V α) : Op α where
+  nin := n
+  nout := n
+  eval := fun x => mulVec n G (fun f => D f * mulVec n F x f)
+  adj := fun y => mulVec n G (fun f => conj (D f) * mulVec n F y f)
+
+/-- real input and real output (`self.real`): `hx.real` in `_eval`, `H_adj_x.real` in `_adj`; the arguments are real
+    arrays (`re` = projection on the real subfield) -/
+def Op.wrapRR (re : α → α) (A : Op α) : Op α where
+  nin := A.nin
+  nout := A.nout
+  eval := fun x i => re (A.eval (fun j => re (x j)) i)
+  adj := fun y j => re (A.adj (fun i => re (y i)) j)
+
+/-- real input, complex output (complex filter on a real signal): `_adj` keeps the real part -/
+def Op.wrapRC (re : α → α) (A : Op α) : Op α where
+  nin := A.nin
+  nout := A.nout
+  eval := fun x => A.eval (fun j => re (x j))
+  adj := fun y j => re (A.adj y j)
+
+end spectral
+
 /-! ### Scatter / gather (X-ray projectors) -/
 
 section scatter
